@@ -35,7 +35,7 @@ import (
 	mw "verif/mqttwire"
 )
 
-const c19Rule = "accounts: broker with the auth plugin, hash in {plain,md5,sha256,bcrypt}, password file absolute / relative with ConfigDir = cwd / relative with ConfigDir != cwd; 4-20 steps over Update(user,password) / Delete(user) through the exported account handlers, broker restart on the same configuration, and CONNECT attempts (v3.1/v3.1.1/v5, all four user-name/password flag combinations, user-name class exact|case|prefix|suffix|empty|unknown, password class exact|case|prefix|suffix|empty|other account's|stored hash string|binary, v5 Authentication Method / Data optionally present; 3 user names and passwords from pools with YAML-significant, non-ASCII, empty and maximal strings), then a forced restart and further attempts incl. the exact credentials of every user; oracle: harness model map[user]plaintext, accepted (CONNACK 0) <=> user name flag set, user present, password equal (never the plugin's compare); a rejected CONNECT gets a failure CONNACK or a close / silence, never code 0, and leaves no session. pre-auth: broker with the auth plugin / with an OnBasicAuth hook / without authentication; a rogue connection sends 1-8 packets from {SUBSCRIBE v/# | # | the bystander sentinel filter, PUBLISH v/r QoS0/1 (retained, sometimes not), UNSUBSCRIBE, PUBREL, PUBACK, DISCONNECT, AUTH, PINGREQ, garbage, a second (valid) CONNECT} before any CONNECT or after a CONNECT that is rejected (bad credentials, bad protocol level, empty client id; optionally with a retained will; optionally under the bystander's client id) and holds the connection open; an authenticated bystander subscribed to '#' must receive nothing (API sentinel barrier), sessions / subscriptions / retained store must show only the legitimate clients, also after the rogue connection was closed and a late subscriber of v/# joined. Non-trivial: a CONNECT attempt with a near-miss credential against an existing account (user or password class other than exact / unknown and actually different from the stored pair), or a pre-CONNECT sequence containing SUBSCRIBE / retained PUBLISH / UNSUBSCRIBE; distinct by scenario digest."
+const c19Rule = "accounts: broker with the auth plugin, hash in {plain,md5,sha256,bcrypt}, password file absolute / relative with ConfigDir = cwd / relative with ConfigDir != cwd; 1-20 steps over Update(user,password) / Delete(user) through the exported account handlers (in-process, no gRPC transport), broker restart on the same configuration, and CONNECT attempts (v3.1/v3.1.1/v5, all four user-name/password flag combinations, user-name class exact|case|prefix|suffix|empty|unknown, password class exact|case|prefix|suffix|empty|other account's|stored hash string|binary, v5 Authentication Method / Data optionally present; 3 user names and passwords from pools with YAML-significant, non-ASCII, empty and maximal strings), then a forced restart and further attempts; right before and right after every restart the exact credentials of every user name and one unknown user are probed; oracle: harness model map[user]plaintext, accepted (CONNACK 0) <=> user name flag set, user present, password equal (never the plugin's compare); a rejected CONNECT gets a failure CONNACK or a close / silence, never code 0, and leaves no session. pre-auth: broker with the auth plugin / with an OnBasicAuth hook / without authentication; a rogue connection (on a second in-memory listener) sends 1-8 packets from {SUBSCRIBE v/# | # | the bystander sentinel filter, PUBLISH v/r QoS0/1 (retained, sometimes not), UNSUBSCRIBE, PUBREL, PUBACK, DISCONNECT, AUTH, PINGREQ, garbage, a second (valid) CONNECT} before any CONNECT or after a CONNECT that is rejected (bad credentials, bad protocol level, empty client id; optionally with a retained will; optionally under the bystander's client id) and holds the connection open; an authenticated bystander subscribed to '#' must receive nothing (API sentinel barrier), sessions / subscriptions / retained store must show only the legitimate clients, also after the rogue connection was closed and a late subscriber of v/# joined. Non-trivial: a CONNECT attempt with a near-miss credential against an existing account (user or password class other than exact / unknown and actually different from the stored pair), or a pre-CONNECT sequence containing SUBSCRIBE / retained PUBLISH / UNSUBSCRIBE; distinct by scenario digest."
 
 // ---------------------------------------------------------------------------------------
 // shared: one CONNECT attempt and its outcome
@@ -137,9 +137,8 @@ func c19Attempt(b *c19Broker, raw []byte, v mw.Version, id, sessionID string) (*
 				return cl, got(p), nil
 			case errors.Is(err, fixture.ErrClosed):
 				return cl, c19Res{Code: -1, Closed: true}, nil
-			case registered:
-				return cl, c19Res{Code: -1}, fmt.Errorf("a session was registered for %q but no CONNACK arrived", sessionID)
 			}
+			// (registered and still no CONNACK: the caller's session oracle reports it)
 			return cl, c19Res{Code: -1, Silent: true}, nil
 		}
 		if time.Now().After(deadline) {
@@ -242,7 +241,7 @@ func genC19(t *rapid.T) c19Scen {
 		Loc:  rapid.SampledFrom([]string{"abs", "rel_cwd", "rel_other"}).Draw(t, "loc"),
 	}
 	s.Users = rapid.SliceOfNDistinct(rapid.SampledFrom(c19UserPool), 3, 3, rapid.ID[string]).Draw(t, "users")
-	n := rapid.IntRange(4, 20).Draw(t, "nsteps")
+	n := rapid.IntRange(1, 20).Draw(t, "nsteps")
 	for i := 0; i < n; i++ {
 		switch k := rapid.IntRange(0, 19).Draw(t, "kind"); {
 		case k <= 4:
@@ -514,7 +513,7 @@ func runC19(s c19Scen, c *ev.Case) *ev.Violation {
 			if cl == nil {
 				return harnessErr("attempt: %v", err)
 			}
-			return ev.Violf("C19.accept-valid", "attempt %d: %v", attempt, err).With("hash", s.Hash, "version", st.V)
+			return harnessErr("attempt %d: %v", attempt, err)
 		}
 		c.Logf("   outcome: %s", res)
 		feat := []any{"hash", s.Hash, "version", st.V, "uflag", st.UF, "pflag", st.PF, "uclass", st.UC, "pclass", st.PC, "loc", s.Loc,
@@ -1019,6 +1018,7 @@ func runC19Pre(s c19PreScen, c *ev.Case) *ev.Violation {
 		}
 		if c19PacketsSeen(b) >= base+expectCounted {
 			c.Count("pre_rogue_all_packets_read", 1)
+			time.Sleep(2 * time.Millisecond) // read is not yet handled, should anything handle it
 			break
 		}
 		if time.Now().After(deadline) {
